@@ -546,6 +546,20 @@ func funcAll(c *core.Ctx, in []string, r *core.Rand) bool {
 		}
 		c.Count("get_helpers", 3)
 	}
+	for _, i := range []int{math.MaxInt, math.MaxInt - 1, math.MinInt, math.MinInt + 1, math.MaxInt / 2} {
+		var v, sg, so string
+		var ok bool
+		if p, pv := core.Catch(func() {
+			v, ok = slices.TryGet(in, i)
+			sg = slices.SafeGet(in, i)
+			so = slices.SafeGetOr(in, i, "fb")
+		}); p {
+			return fail("TryGet/SafeGet:extreme-index-panic", fmt.Sprintf("index %d: %v", i, pv))
+		}
+		if ok || v != "" || sg != "" || so != "fb" {
+			return fail("TryGet/SafeGet:out-of-range", fmt.Sprintf("index %d of %d: TryGet=(%q,%v) SafeGet=%q SafeGetOr=%q", i, n, v, ok, sg, so))
+		}
+	}
 	if n > 0 {
 		if l := slices.Last(in); l != snap[n-1] {
 			return fail("Last:result", fmt.Sprintf("Last=%q want %q", l, snap[n-1]))
